@@ -206,6 +206,27 @@ def run(ctx, rep, tier):
     rep.check("self.break_handlers[loop_name] = loop_node.get_break_handler" in pb and "self.innermost_break_handler = loop_node.get_break_handler" in pb and
               "self.innermost_break_handler = previous_break" in pb, "C01.f", "ParseCtx._parse_stmt", "break targets: named loop / innermost loop, restored after the body", "break target scoping changed")
 
+    rep.check(lsrc.count(".attach(*self.loop_start_actions)") == 2 and "trans.handles_else(False).fallthrough().to(sub_dfa.starting_state).attach(*self.loop_start_actions)" in lsrc and
+              "accept_state[DFTransition.Else] = DFTransition(fallthrough=True).to(sub_dfa.starting_state).attach(*self.loop_start_actions)" in lsrc, "C01.f", "LoopNode.convert",
+              "both kinds of loop back-edge carry the actions at the top of the loop body", "a loop back-edge no longer runs the statements at the top of the loop body for the next iteration")
+    rep.check("return (self.loop_start_actions, self)" in ast.unparse(model.func("LoopNode.adopt_actions_from")), "C01.f", "LoopNode.adopt_actions_from",
+              "the first iteration gets the same actions from the preceding node", "loop start action adoption changed")
+
+    # ------------------------------------------------------------------ C01.j foreach
+    rep.rule("C01.j", "foreach: the do-actions are prepended to every consuming transition of the body that does not go to an error handler")
+    fe = model.func("ForeachNode.convert")
+    skips = [n for n in ast.walk(fe) if isinstance(n, ast.If) and n.body and isinstance(n.body[-1], ast.Continue)]
+    ok = len(skips) == 1 and ast.unparse(skips[0].test) == "transition.target in ignored_targets or transition.is_fallthrough"
+    rep.check(ok, "C01.j", "ForeachNode.convert", "skips only transitions into error handlers and non-consuming transitions",
+              f"foreach skips transitions under `{ast.unparse(skips[0].test) if skips else None}`: some consumed bytes (e.g. bytes skipped by a wait) no longer run the do-actions")
+    fsrc = ast.unparse(fe)
+    rep.check("transition.attach(*self.each_actions, prepend=True)" in fsrc and "ignored_targets = set(current_error_handlers.values())" in fsrc and "for state in sub_dfa.states:" in fsrc
+              and "for transition in state.all_transitions():" in fsrc, "C01.j", "ForeachNode.convert", "each-actions first on every remaining transition of every body state", "foreach attachment changed")
+    body = strip_doc(fe.body)
+    i_att = next((i for i, st in enumerate(body) if "each_actions" in ast.unparse(st)), None)
+    i_next = next((i for i, st in enumerate(body) if "self.next" in ast.unparse(st)), None)
+    rep.check(i_att is not None and i_next is not None and i_att < i_next, "C01.j", "ForeachNode.convert", "attached before the continuation is joined (so only the body's bytes count)", "foreach ordering changed")
+
     # ------------------------------------------------------------------ C01.g action placement in literal matches
     rep.rule("C01.g", "literal matches: start actions on the first transition (and its mismatch path), per-character actions on every transition, finish actions on the last")
     ma = ast.unparse(model.func("Match.attach"))
